@@ -1051,4 +1051,63 @@ theorem normLocal_idem (E : Env) (spec : LSpec) (k : Kind) (a : Arg) :
   | constr _ _ => cases a <;> rfl
   | init _ _ _ => cases a <;> rfl
 
+/-! ### quantizer objects shared between slots -/
+
+theorem setTr_idem (E : Env) (q : QObj) : setTr E (setTr E q) = setTr E q := by
+  unfold setTr
+  cases hf : E.findQ q.cls with
+  | none => simp [hf]
+  | some s => simp [setTrainable_cls, hf, setTrainable_idem]
+
+theorem normQ_obj (E : Env) (q : QObj) : normQ E true (.q (.obj q)) = .q (.obj (setTr E q)) := by
+  unfold normQ setTr
+  cases hf : E.findQ q.cls <;> simp [hf]
+
+/-- does parameter `p` make the constructor switch object `j`? -/
+def touches (ref : String → Option Nat) (j : Nat) (p : Param) : Bool :=
+  p.kind.isTrainableQuant && ref p.name == some j
+
+theorem constructStep_touch (E : Env) (ref : String → Option Nat) (h : QHeap) (p : Param) (j : Nat)
+    (ht : touches ref j p = true) : constructStep E ref h p j = setTr E (h j) := by
+  unfold touches at ht
+  simp only [Bool.and_eq_true, beq_iff_eq] at ht
+  simp [constructStep, ht.1, ht.2, QHeap.mutate]
+
+theorem constructStep_other (E : Env) (ref : String → Option Nat) (h : QHeap) (p : Param) (j : Nat)
+    (ht : touches ref j p = false) : constructStep E ref h p j = h j := by
+  unfold constructStep
+  cases hk : p.kind.isTrainableQuant with
+  | false => rfl
+  | true =>
+    cases hr : ref p.name with
+    | none => rfl
+    | some i =>
+      have hij : j ≠ i := by
+        intro e
+        subst e
+        simp [touches, hk, hr] at ht
+      simp [QHeap.mutate, hij]
+
+/-- the in-place switches of a constructor, closed form: an object is switched (once — the switch
+    is idempotent) iff some trainable slot refers to it, whatever the order of the slots and
+    however many of them share it; every other object is untouched -/
+theorem foldl_constructStep (E : Env) (ref : String → Option Nat) (l : List Param) (h : QHeap) (j : Nat) :
+    (l.foldl (constructStep E ref) h) j = if l.any (touches ref j) then setTr E (h j) else h j := by
+  induction l generalizing h with
+  | nil => simp
+  | cons p l ih =>
+    rw [List.foldl_cons, ih (constructStep E ref h p)]
+    cases ht : touches ref j p with
+    | true =>
+      rw [constructStep_touch E ref h p j ht]
+      simp [ht, setTr_idem]
+    | false =>
+      rw [constructStep_other E ref h p j ht]
+      simp [ht]
+
+theorem constructHeap_closed (E : Env) (spec : LSpec) (ref : String → Option Nat) (h : QHeap) (j : Nat) :
+    constructHeap E spec ref h j = if touched spec ref j then setTr E (h j) else h j := by
+  unfold constructHeap touched
+  exact foldl_constructStep E ref spec.params h j
+
 end QKV.LC
